@@ -1707,8 +1707,10 @@ class DiameterMessage:
 
         _avp_class = loader.get_avp_class(avp)
 
-        setattr(self, avp_name, _avp_class(avp_value))
-        self[index] = _avp_class(avp_value)
+        new_avp = _avp_class(avp_value)
+
+        setattr(self, avp_name, new_avp)
+        self[index] = new_avp
 
         new_avp_att = getattr(self, avp_name)
         new_avp_arr = self[index]
